@@ -143,3 +143,28 @@ pub struct OneCharLong {
     #[cli(short = "y", long = "z")]
     y: bool,
 }
+
+/// The subcommand member declared FIRST, options after it (the order of declaration is not part of the grammar)
+#[derive(ArgParse, Debug, Eq, PartialEq)]
+#[cli(help_path = "subcommand-first")]
+pub struct SubcommandFirst {
+    #[cli(subcommand)]
+    which: Option<UnitOnly>,
+    /// declared behind the subcommand member
+    #[cli(short = "j", long = "jobs")]
+    jobs: Option<u32>,
+    #[cli(short = "v", long = "verbose")]
+    verbose: bool,
+}
+
+/// ... and in the middle
+#[derive(ArgParse, Debug, Eq, PartialEq)]
+#[cli(help_path = "subcommand-middle")]
+pub struct SubcommandMiddle {
+    #[cli(short = "k", long = "keep")]
+    keep: bool,
+    #[cli(subcommand)]
+    which: UnitOnly,
+    #[cli(long = "limit")]
+    limit: Option<i32>,
+}
